@@ -10,6 +10,8 @@ pub mod c07;
 pub mod c08;
 pub mod c13;
 pub mod c14;
+pub mod c15;
+pub mod c16;
 pub mod c17;
 pub mod c18;
 pub mod dom;
@@ -34,6 +36,8 @@ pub const ENTRIES: &[Entry] = &[
     Entry { id: "C12", run: dom::run_c12 },
     Entry { id: "C13", run: c13::run },
     Entry { id: "C14", run: c14::run },
+    Entry { id: "C15", run: c15::run },
+    Entry { id: "C16", run: c16::run },
     Entry { id: "C17", run: c17::run },
     Entry { id: "C18", run: c18::run },
 ];
